@@ -1,5 +1,7 @@
 import FiberModel.C02.Sound
 import FiberModel.C02.Locality
+import FiberModel.C02.Capstone
+import FiberModel.C02.Constraints
 import FiberModel.C02.Known
 /-
 C02 — property theorems (only). The matcher theorems quantify over every segment list satisfying
@@ -189,7 +191,8 @@ theorem route_match_requires_getMatch {chk : Constraint → Bytes → Bool} {r :
 
 theorem register_use {cfg : Config} {use : Bool} {pattern : Bytes} {r : Route}
     (hr : register cfg use pattern = some r) :
-    r.use = use ∧ ∃ pp, parseRoute (prettyPattern cfg pattern) = some pp ∧ r.parser = pp := by
+    r.use = use ∧ ∃ pp, parseRouteW (prettyPattern cfg pattern)
+        ((rawPattern pattern).take (prettyPattern cfg pattern).length) = some pp ∧ r.parser = pp := by
   unfold register at hr
   simp only at hr
   split at hr
@@ -218,7 +221,7 @@ theorem route_sound {chk : Constraint → Bytes → Bool} {cfg : Config} {use : 
     namedNoSlash (paramSegs r.parser.segs) vs = true := by
   rw [route_match_requires_getMatch hp hstar hroot] at h
   obtain ⟨hu, pp, hpp, hpe⟩ := register_use hr
-  have hm : MetaOK r.parser.segs := by rw [hpe]; exact parseRoute_metaOK hpp
+  have hm : MetaOK r.parser.segs := by rw [hpe]; exact parseRouteW_metaOK hpp
   have hal := configDependentPaths_aligned cfg orig
   refine ⟨?_, getMatch_constraints _ _ _ _ h, getMatch_required _ _ _ _ _ hal h,
     getMatch_namedNoSlash _ (foldByte_slash cfg) _ _ _ _ hm hal h⟩
@@ -253,20 +256,298 @@ theorem declared_eq_routed {cfg : Config} (hcs : cfg.caseSensitive = true) (hst 
   unfold prettyPattern rawPattern
   simp [hcs, hst]
 
-/-- K1 witness: default configuration, `GET /:x<regex(^[A-Z]+$)>`, request `/abc`. The declared
-    constraint (upper-case letters only) is violated by the value `abc`, yet the route matches,
-    because the router enforces the constraint parsed from the lower-cased pattern. `decl` is the
-    documented meaning of the declared regex on this value, `low` of the lower-cased one. -/
-theorem declared_constraints_witness_K1 :
-    (match register {} false (b "/:x<regex(^[A-Z]+$)>"), parseRoute (b "/:x<regex(^[A-Z]+$)>") with
-     | some r, some decl =>
-       -- fiber's verdicts: the lower-cased regex accepts "abc"
-       let low : Constraint → Bytes → Bool := fun c v => c.data == [b "^[a-z]+$"] && v == b "abc"
-       -- documented meaning of the declared regex: "abc" is not upper-case
+/-! ## The pattern as written, all routes, and what `Params` reports -/
+
+theorem unquote_head {orig : Bytes} (ho : orig.head? = some SLASH) : (unquote orig).head? = some SLASH := by
+  cases orig with
+  | nil => cases ho
+  | cons c rest =>
+    have hc : c = SLASH := by simpa using ho
+    subst hc
+    unfold unquote
+    have h1 : (SLASH == PCT) = false := by decide
+    have h2 : (SLASH == PLUS) = false := by decide
+    simp only [h1, h2, Bool.false_eq_true, if_false, List.head?_cons]
+
+theorem configDependentPaths_head (cfg : Config) {orig : Bytes} (ho : orig.head? = some SLASH) :
+    (configDependentPaths cfg orig).1.head? = some SLASH := by
+  unfold configDependentPaths
+  simp only
+  split
+  · exact unquote_head ho
+  · exact ho
+
+/-- The four clauses for the segments the route matches with — every branch of `Route.match`:
+    the root shortcut (impossible for a route that declares parameters), the catch-all shortcut, and
+    the parameter matcher. -/
+theorem route_sound_routed {chk : Constraint → Bytes → Bool} {cfg : Config} {use : Bool} {pattern : Bytes}
+    {r : Route} (hr : register cfg use pattern = some r) (hp : r.params.length > 0)
+    (orig : Bytes) (ho : orig.head? = some SLASH) {vs : List Bytes}
+    (h : routeMatch chk r (configDependentPaths cfg orig).2 (configDependentPaths cfg orig).1 = some vs) :
+    vs.length = (paramSegs r.parser.segs).length ∧
+    substitutionOK cfg use r.parser.segs vs (configDependentPaths cfg orig).1 = true ∧
+    constraintViolation chk (paramSegs r.parser.segs) vs = none ∧
+    requiredNonEmpty (paramSegs r.parser.segs) vs = true ∧
+    namedNoSlash (paramSegs r.parser.segs) vs = true := by
+  have hroot : r.root = false := by
+    cases hrt : r.root
+    · rfl
+    · have := root_no_params hr hrt
+      rw [this] at hp; simp at hp
+  cases hst : r.star
+  · have hgm := h
+    rw [route_match_requires_getMatch hp hst hroot] at hgm
+    exact ⟨getMatch_length _ _ _ _ hgm, route_sound hr hp hst hroot orig h⟩
+  · obtain ⟨hsegs, _⟩ := star_parser hr hst
+    have hv := star_route_value (chk := chk) hst (by rw [hroot]; simp) h
+    subst hv
+    rw [hsegs]
+    exact ⟨rfl, star_sound cfg use _ (configDependentPaths_head cfg ho)⟩
+
+/-- **C02 against the pattern as written — every configuration, every registered route that declares
+    parameters, every request path.** If `Route.match` succeeds, then for the values it wrote:
+    (1) substituting them into the routed pattern reproduces `Path()` (a prefix for middleware) modulo
+        the configured case folding and the trailing slashes the pattern / configuration make optional;
+    (2) every value satisfies every constraint **as written in the pattern** (same names, same data,
+        same letter case — `routed_eq_written`; for any verdict function of regex / datetime / custom
+        constraints), an optional parameter that captured nothing excepted;
+    (3) parameters not marked optional in the written pattern are non-empty;
+    (4) parameters not greedy in the written pattern contain no '/'.
+    `wr` is the parse of `writtenPattern cfg pattern`: the text passed to `Get`/`Use`, no case folding,
+    minus the trailing slashes the configuration ignores. -/
+theorem route_sound_written {chk : Constraint → Bytes → Bool} {cfg : Config} {use : Bool} {pattern : Bytes}
+    {r : Route} (hr : register cfg use pattern = some r) (hp : r.params.length > 0)
+    (orig : Bytes) (ho : orig.head? = some SLASH) {vs : List Bytes}
+    (h : routeMatch chk r (configDependentPaths cfg orig).2 (configDependentPaths cfg orig).1 = some vs) :
+    ∃ wr, parseRoute (writtenPattern cfg pattern) = some wr ∧
+      vs.length = (paramSegs wr.segs).length ∧
+      substitutionOK cfg use r.parser.segs vs (configDependentPaths cfg orig).1 = true ∧
+      constraintViolation chk (paramSegs wr.segs) vs = none ∧
+      requiredNonEmpty (paramSegs wr.segs) vs = true ∧
+      namedNoSlash (paramSegs wr.segs) vs = true := by
+  obtain ⟨wr, hwr, hv⟩ := routed_eq_written hr
+  obtain ⟨hl, h1, h2, h3, h4⟩ := route_sound_routed hr hp orig ho h
+  obtain ⟨c1, c2, c3⟩ := clauses_congr (chk := chk) _ _ vs hv
+  refine ⟨wr, hwr, ?_, h1, ?_, by rw [← c2]; exact h3, by rw [← c3]; exact h4⟩
+  · have := congrArg List.length hv
+    simp only [List.length_map] at this
+    omega
+  · rw [h2] at c1
+    cases hc : constraintViolation chk (paramSegs wr.segs) vs with
+    | none => rfl
+    | some _ => rw [hc] at c1; cases c1
+
+example : (match register {} false (b "/Shop/:id<regex(^[A-Z]+$)>/:rest?/"), parseRoute (writtenPattern {} (b "/Shop/:id<regex(^[A-Z]+$)>/:rest?/")) with
+    | some r, some wr =>
+      decide (r.params.length > 0) &&
+      routeMatch (fun _ _ => true) r (b "/shop/abc") (b "/SHOP/ABC") == some [b "ABC", []] &&
+      (paramSegs wr.segs).map (·.constraints) ==
+        [[{ id := .regex, name := b "regex", data := [b "^[A-Z]+$"] }], []]
+    | _, _ => false) = true := by decide
+
+/-- **What `Params(key)` reports.** For any key, `Params(key)` is "" or the value of the first
+    declared name `j` that answers to the key (same length; equal, or equal under ASCII case folding
+    unless CaseSensitive; the keys `*` / `+` stand for `*1` / `+1`), and that value meets the
+    per-value clauses of the property for the `j`-th parameter of the pattern as written.
+    (`NoSwallow`: outside the corner where the raw text and the written pattern disagree about where
+    the last parameter ends; there `Route.Params` is only tied to the route by the correspondence
+    check.) -/
+theorem params_observed_sound {chk : Constraint → Bytes → Bool} {cfg : Config} {use : Bool} {pattern : Bytes}
+    {r : Route} (hr : register cfg use pattern = some r) (hp : r.params.length > 0)
+    (hns : NoSwallow (writtenPattern cfg pattern))
+    (orig : Bytes) (ho : orig.head? = some SLASH) {vs : List Bytes}
+    (h : routeMatch chk r (configDependentPaths cfg orig).2 (configDependentPaths cfg orig).1 = some vs)
+    (key : Bytes) :
+    ∃ wr, parseRoute (writtenPattern cfg pattern) = some wr ∧
+      (paramsGet cfg r.params vs key = [] ∨
+       ∃ j, ∃ _ : j < r.params.length, ∃ _ : j < (paramSegs wr.segs).length, ∃ _ : j < vs.length,
+         keyMatch cfg r.params[j] (paramsKey key) = true ∧
+         (∀ i, ∀ _ : i < r.params.length, i < j → keyMatch cfg r.params[i] (paramsKey key) = false) ∧
+         paramsGet cfg r.params vs key = vs[j] ∧
+         clausesAt chk (paramSegs wr.segs)[j] vs[j]) := by
+  obtain ⟨wr, hwr, hl, _, h2, h3, h4⟩ := route_sound_written hr hp orig ho h
+  refine ⟨wr, hwr, ?_⟩
+  have hal := params_aligned hr hns
+  have hl2 := (route_sound_routed hr hp orig ho h).1
+  unfold paramsGet
+  rw [paramsLookup_eq]
+  rcases lookupRec_first cfg (paramsKey key) r.params vs with ⟨h0, _⟩ | ⟨j, hj, hm, hfirst, hval⟩
+  · left; exact h0
+  · right
+    have hjv : j < vs.length := by omega
+    have hjs : j < (paramSegs wr.segs).length := by omega
+    refine ⟨j, hj, hjs, hjv, hm, hfirst, ?_, clauses_pointwise _ _ h2 h3 h4 j hjs hjv⟩
+    rw [hval]
+    simp [List.getD_eq_getElem?_getD, List.getElem?_eq_getElem hjv]
+
+/-- **With distinct declared names, `Params(name)` reports exactly the values `Route.match` wrote**, so
+    the clauses of `route_sound_written` hold for what the handler reads through `Params`. -/
+theorem params_positional {chk : Constraint → Bytes → Bool} {cfg : Config} {use : Bool} {pattern : Bytes}
+    {r : Route} (hr : register cfg use pattern = some r) (hp : r.params.length > 0)
+    (hns : NoSwallow (writtenPattern cfg pattern)) (hd : namesDistinct cfg r.params = true)
+    (orig : Bytes) (ho : orig.head? = some SLASH) {vs : List Bytes}
+    (h : routeMatch chk r (configDependentPaths cfg orig).2 (configDependentPaths cfg orig).1 = some vs) :
+    r.params.map (paramsLookup cfg r.params vs) = vs := by
+  have hal := params_aligned hr hns
+  have hl2 := (route_sound_routed hr hp orig ho h).1
+  have : r.params.map (paramsLookup cfg r.params vs) = r.params.map (lookupRec cfg r.params vs) := by
+    apply List.map_congr_left
+    intro n _
+    exact paramsLookup_eq cfg r.params vs n
+  rw [this]
+  exact lookupRec_positional cfg r.params vs hd (by omega)
+
+example : (match register {} false (b "/a/:Id/*") with
+    | some r =>
+      namesDistinct {} r.params &&
+      routeMatch (fun _ _ => true) r (b "/a/x/y/z") (b "/a/X/y/Z") == some [b "X", b "y/Z"] &&
+      paramsGet {} r.params [b "X", b "y/Z"] (b "ID") == b "X" &&
+      paramsGet {} r.params [b "X", b "y/Z"] (b "*") == b "y/Z"
+    | none => false) = true := by decide
+
+/-- **The built-in constraints, end to end.** With `CheckConstraint` as the constraint check (any
+    registered custom constraints `custom`, any verdicts `abs` for regex / datetime / custom): whenever
+    a registered route matches, every value written for a parameter of the pattern as written passes
+    the transcribed decision procedure of each of its built-in constraints int, bool, float, guid,
+    minLen, maxLen, len, betweenLen, min, max, range — and alpha when the value is ASCII — that no
+    custom constraint overrides (an optional parameter that captured nothing excepted). What the
+    procedures demand is spelled out by `checkExact_int … checkExact_range`, `atoi_ok`. -/
+theorem builtin_constraints_enforced {custom : List Bytes} {abs : Constraint → Bytes → Bool}
+    {cfg : Config} {use : Bool} {pattern : Bytes}
+    {r : Route} (hr : register cfg use pattern = some r) (hp : r.params.length > 0)
+    (orig : Bytes) (ho : orig.head? = some SLASH) {vs : List Bytes}
+    (h : routeMatch (checkConstraint custom abs) r (configDependentPaths cfg orig).2
+      (configDependentPaths cfg orig).1 = some vs) :
+    ∃ wr, parseRoute (writtenPattern cfg pattern) = some wr ∧
+      ∀ j, ∀ hj : j < (paramSegs wr.segs).length, ∀ hv : j < vs.length,
+        ∀ c ∈ ((paramSegs wr.segs)[j]).constraints, custom.contains c.name = false →
+          (c.id.exact = true ∨ (c.id = .alpha ∧ vs[j].any (· ≥ 128) = false)) →
+          (((paramSegs wr.segs)[j]).isOptional = true ∧ vs[j] = []) ∨ checkExact c vs[j] = true := by
+  obtain ⟨wr, hwr, _, _, h2, h3, h4⟩ := route_sound_written hr hp orig ho h
+  refine ⟨wr, hwr, ?_⟩
+  intro j hj hv c hc hcust hk
+  rcases (clauses_pointwise _ _ h2 h3 h4 j hj hv).1 with hopt | hall
+  · exact Or.inl hopt
+  · right
+    rw [← checkConstraint_builtin custom abs c _ hcust hk]
+    exact hall c hc
+
+example : (match register {} false (b "/U/:id<range(5,10)>/:f<float>/:g<guid>?") with
+    | some r =>
+      let chk := checkConstraint [] (fun _ _ => false)
+      routeMatch chk r (b "/u/7/1.5") (b "/U/7/1.5") == some [b "7", b "1.5", []] &&
+      routeMatch chk r (b "/u/11/1.5") (b "/u/11/1.5") == none &&
+      routeMatch chk r (b "/u/7/1e39") (b "/u/7/1e39") == none &&
+      routeMatch chk r (b "/u/7/0x1p-2/123e4567-e89b-12d3-a456-426614174000") (b "/u/7/0x1p-2/123E4567-e89b-12d3-a456-426614174000")
+        == some [b "7", b "0x1p-2", b "123E4567-e89b-12d3-a456-426614174000"] &&
+      routeMatch chk r (b "/u/7/1.5/123e4567") (b "/u/7/1.5/123e4567") == none
+    | none => false) = true := by decide
+
+/-! ## model ⊑ spec -/
+
+theorem dispatch1_some {chk : Constraint → Bytes → Bool} {r : Route} {det path : Bytes} {vs : List Bytes}
+    (h : dispatch1 chk r det path = some vs) : routeMatch chk r det path = some vs := by
+  unfold dispatch1 at h
+  split at h
+  · exact h
+  · cases h
+
+/-- **The model's observation meets the specification — the exact predicate the oracle evaluates on
+    the implementation's observations.** For every configuration, `Get` or `Use`, every pattern that
+    registers, every request path starting with '/', every constraint verdict function: the
+    observation the model produces (handler ran or 404; `Route().Params`; `Params(name)` for every
+    declared name; `Params(k)` for the extra keys `*`, `+`, the first name in upper and lower case;
+    `Path()`) has no failing clause: declared names, arity, substitution, constraints as written,
+    required non-empty, named without '/', `Params` lookup rule, not-found handling.
+    Hypotheses: distinct declared names (the documented assumption under which `Params(name)` is the
+    positional value) and `NoSwallow` (the raw text and the written pattern agree on where the last
+    parameter ends). -/
+theorem model_meets_spec {chk : Constraint → Bytes → Bool} {cfg : Config} {use : Bool} {pattern reqPath : Bytes}
+    {decl wr : Parser} {r : Route}
+    (hd : parseRoute (rawPattern pattern) = some decl) (hw : parseRoute (writtenPattern cfg pattern) = some wr)
+    (hr : register cfg use pattern = some r)
+    (ho : reqPath.head? = some SLASH) (hns : NoSwallow (writtenPattern cfg pattern))
+    (hdist : namesDistinct cfg r.params = true) :
+    specViolation cfg use decl.segs wr.segs r.parser.segs chk (modelObs chk cfg use pattern reqPath) = none := by
+  unfold modelObs
+  rw [hr]
+  simp only
+  cases hdsp : dispatch1 chk r (configDependentPaths cfg reqPath).2 (configDependentPaths cfg reqPath).1 with
+  | none => simp [specViolation]
+  | some vs =>
+    have hm := dispatch1_some hdsp
+    simp only
+    -- facts about the route
+    obtain ⟨pr, hpr, hparams, _⟩ := register_parts hr
+    rw [hd] at hpr
+    cases hpr
+    obtain ⟨wr', hwr', hv⟩ := routed_eq_written hr
+    rw [hw] at hwr'
+    cases hwr'
+    have hraw := written_eq_raw hns hd hw
+    have hal := params_aligned hr hns
+    have hnames : r.params = (paramSegs decl.segs).map (·.paramName) := by
+      rw [hparams, parseRoute_params hd]; rfl
+    have l1 : (paramSegs r.parser.segs).length = (paramSegs wr.segs).length := by
+      have := congrArg List.length hv; simpa using this
+    have l2 : (paramSegs decl.segs).length = (paramSegs wr.segs).length := by
+      have := congrArg List.length hraw; simpa using this
+    unfold specViolation
+    simp only [Bool.false_eq_true, if_false, show ((1 : Nat) == 0) = false from rfl,
+      show ((1 : Nat) != 1) = false from rfl]
+    by_cases hemp : ((paramSegs decl.segs).isEmpty && (paramSegs wr.segs).isEmpty) = true
+    · rw [if_pos hemp]
+    · rw [if_neg hemp]
+      have hp : r.params.length > 0 := by
+        rw [hal, l1]
+        cases hps : paramSegs wr.segs with
+        | nil =>
+          exfalso; apply hemp
+          have : paramSegs decl.segs = [] := List.eq_nil_of_length_eq_zero (by rw [l2, hps]; rfl)
+          rw [this, hps]; rfl
+        | cons _ _ => simp
+      obtain ⟨wr'', hwr'', hlen, h1, h2, h3, h4⟩ := route_sound_written hr hp reqPath ho hm
+      rw [hw] at hwr''
+      cases hwr''
+      have hpos := params_positional hr hp hns hdist reqPath ho hm
+      have hextra : (extraKeys r.params).map (paramsGet cfg r.params vs) =
+          (extraKeys r.params).map (specLookup cfg r.params vs) := by
+        apply List.map_congr_left
+        intro k _
+        exact paramsGet_eq_specLookup cfg r.params vs k
+      simp only [hpos, hextra, hnames, bne_self_eq_false, Bool.false_eq_true, if_false]
+      have a1 : (vs.length != (paramSegs wr.segs).length) = false := by simp [hlen]
+      have a2 : ((paramSegs r.parser.segs).length != (paramSegs wr.segs).length) = false := by simp [l1]
+      have a3 : ((paramSegs decl.segs).length != (paramSegs wr.segs).length) = false := by simp [l2]
+      simp only [a1, a2, a3, Bool.or_self, Bool.false_eq_true, if_false, h1, Bool.not_true, h2, Option.isSome_none,
+        h3, h4]
+      rw [← hnames]
+      simp
+
+example : (match parseRoute (rawPattern (b "/Shop/:Id<int>/*")), parseRoute (writtenPattern {} (b "/Shop/:Id<int>/*")),
+      register {} false (b "/Shop/:Id<int>/*") with
+    | some decl, some wr, some r =>
+      namesDistinct {} r.params &&
+      (modelObs (checkConstraint [] (fun _ _ => false)) {} false (b "/Shop/:Id<int>/*") (b "/SHOP/42/a/B")).vals
+        == [b "42", b "a/B"] &&
+      (modelObs (checkConstraint [] (fun _ _ => false)) {} false (b "/Shop/:Id<int>/*") (b "/SHOP/42/a/B")).extra
+        == [b "a/B", [], b "42", b "42"] &&
+      specViolation {} false decl.segs wr.segs r.parser.segs (checkConstraint [] (fun _ _ => false))
+        (modelObs (checkConstraint [] (fun _ _ => false)) {} false (b "/Shop/:Id<int>/*") (b "/SHOP/42/a/B")) == none
+    | _, _, _ => false) = true := by decide
+
+/-- Former known finding K1, on the repaired code: default configuration (case-insensitive routing),
+    `GET /:x<regex(^[A-Z]+$)>`. The routed parser carries the regex as written, so with the documented
+    meaning of that regex the request `/abc` is rejected and `/ABC` is served with x = "ABC" (the
+    pre-repair router compiled `^[a-z]+$`, served `/abc` and rejected `/ABC`). -/
+theorem K1_repaired :
+    (match register {} false (b "/:x<regex(^[A-Z]+$)>") with
+     | some r =>
        let declared : Constraint → Bytes → Bool := fun c v => c.data == [b "^[A-Z]+$"] && v == b "ABC"
-       routeMatch (checkConstraint [] low) r (b "/abc") (b "/abc") == some [b "abc"] &&
-       (constraintViolation (checkConstraint [] declared) (paramSegs decl.segs) [b "abc"]).isSome &&
-       Known.K1 {} [] decl.segs
-     | _, _ => false) = true := by decide
+       (paramSegs r.parser.segs).map (·.constraints) ==
+         [[{ id := .regex, name := b "regex", data := [b "^[A-Z]+$"] }]] &&
+       routeMatch (checkConstraint [] declared) r (b "/abc") (b "/abc") == none &&
+       routeMatch (checkConstraint [] declared) r (b "/abc") (b "/ABC") == some [b "ABC"]
+     | none => false) = true := by decide
 
 end C02
